@@ -143,10 +143,11 @@ func (w *provWalker) walk(v ssa.Value, depth int) {
 	case *ssa.SliceToArrayPointer:
 		w.walk(x.X, depth)
 	case *ssa.BinOp:
-		if x.Op == token.ADD {
+		switch x.Op {
+		case token.ADD, token.SUB, token.MUL, token.QUO, token.REM, token.AND, token.OR, token.XOR, token.SHL, token.SHR, token.AND_NOT:
 			w.walk(x.X, depth)
 			w.walk(x.Y, depth)
-		} else {
+		default:
 			w.add("opaque", "binop "+x.Op.String(), v)
 		}
 	case *ssa.Extract:
